@@ -195,7 +195,10 @@ class ServerConfig:
         for path_config in self.certificate_auth_paths:
             # Convert fingerprints list to set if present
             fingerprints_list = path_config.get("allowed_fingerprints")
-            fingerprints = set(fingerprints_list) if fingerprints_list else None
+            # An empty list is a whitelist that admits nobody, not "no whitelist"
+            fingerprints = (
+                set(fingerprints_list) if fingerprints_list is not None else None
+            )
 
             path_rules.append(
                 CertificateAuthPathRule(
